@@ -23,6 +23,11 @@ FollowFile(n) == F("follow", FollowObjs, <<R(4, n, 3, 0, 0, FALSE)>>, <<>>)
 Nest(n) ==
   CASE n = "one"   -> <<F("main", MainObjs, <<R(3, 1, 4, 1, 0, FALSE), R(5, 1, 3, 0, 0, FALSE)>>, <<>>), FollowFile(2)>>
     [] n = "prim"  -> <<PrimFile, FollowFile(2)>>
+    \* main model loaded from a string, the other file found by the provider's file pattern;
+    \* the follow-up file matches the pattern itself
+    [] n = "gstr"  -> <<F("main", MainObjs, <<R(3, 1, 4, 0, 0, FALSE), R(5, 2, 2, 0, 0, FALSE)>>, <<2>>),
+                        F("import", ImpObjs, <<R(2, 2, 4, 1, 0, FALSE)>>, <<>>),
+                        F("follow", FollowObjs, <<R(4, 3, 3, 0, 0, FALSE)>>, <<3>>)>>
     [] n = "two"   -> <<F("main", MainObjs, <<R(3, 1, 4, 0, 0, FALSE), R(5, 2, 2, 0, 0, FALSE)>>, <<2>>),
                         F("import", ImpObjs, <<R(2, 2, 4, 1, 0, FALSE)>>, <<1>>), FollowFile(3)>>
     [] n = "chain" -> <<F("main", MainObjs, <<R(3, 1, 4, 0, 0, FALSE), R(5, 2, 2, 0, 0, FALSE)>>, <<2>>),
@@ -40,8 +45,8 @@ AllProcs == <<"Model", "Pkg", "DefA", "DefB", "Use">>
 RECURSIVE Flat(_)
 Flat(ss) == IF ss = <<>> THEN <<>> ELSE Head(ss) \o Flat(Tail(ss))
 
-NestSmall == <<"one", "prim", "two", "fan", "swallow">>
-NestFull  == <<"one", "prim", "two", "chain", "fan", "inner", "swallow">>
+NestSmall == <<"one", "prim", "two", "gstr", "fan", "swallow">>
+NestFull  == <<"one", "prim", "two", "gstr", "chain", "fan", "inner", "swallow">>
 UserSmall == << <<>>, <<"Pkg", "DefA">>, <<"Model", "Pkg", "DefA">> >>
 UserFull  == << <<>>, <<"DefA">>, <<"Pkg", "DefA">>, <<"Model", "Pkg", "DefA">> >>
 RefSteps  == <<"matchproc", "provider", "unknown", "unresolvable">>
@@ -62,6 +67,7 @@ UserId(u) == IF u = <<>> THEN "none" ELSE IF Len(u) = 1 THEN "A" ELSE IF Len(u) 
 Scen(n, u, ow, g, ft) ==
   [id |-> n \o "/" \o UserId(u) \o (IF ow /\ u # <<>> THEN "+own" ELSE "") \o (IF g THEN "/grepo/" ELSE "/-/") \o FtId(ft),
    user |-> u, own |-> IF ow THEN u ELSE <<>>, grepo |-> g, procs |-> AllProcs,
+   prov |-> IF n = "gstr" THEN "glob" ELSE "uri",
    files |-> Nest(n), fault |-> ft, follow |-> Len(Nest(n))]
 Bools == <<FALSE, TRUE>>
 UniverseOf(nests, users, owns) ==
